@@ -49,6 +49,10 @@ def scalar_value(rng, kind, m, c05):
         return m.Money(rng.randint(-500, 500))
     if kind == "list_int":
         return [rng.randint(-5, 5) for _ in range(rng.choice([0, 0, 1, 2, 3]))]
+    if kind == "set_str":
+        return {rng.choice(["", "a", "ü", "b c"]) for _ in range(rng.choice([0, 0, 1, 2, 3]))}
+    if kind == "set_int":
+        return {rng.randint(-5, 5) for _ in range(rng.choice([0, 0, 1, 2, 3]))}
     raise ValueError(kind)
 
 
